@@ -16,6 +16,17 @@ CHECKS = {
           "attribute protocol; oracle is the weakest reading of the property (either target accepted when both name and twin qualify). "
           "Isolation histories bounded to length 2 (quick) / 3 (thorough)."),
     technique="symbolic execution of the Python AST + z3 (strings, uninterpreted predicates); replay on CPython"),
+ "C04": dict(
+    category="other", design_ref="DESIGN.md section 4 (C04)",
+    text=("Symbolic execution of the real brine dump/load/dumpable over ropes: lengths of byte strings (0..2^32-1), integers (unbounded Int, "
+          "digit count symbolic), texts (opaque, symbolic character/utf-8 lengths and a has-lone-surrogate bit), IEEE-754 terms for floats, "
+          "value kinds incl. 17 non-plain witness types at every position up to the stated nesting/arity; z3 decides every length-class branch "
+          "(so 255/256, immediate-int and digit-limit boundaries are found by construction) and the round-trip/agreement assertions. "
+          "Decoder safety: bounded exploration of every byte string up to N bytes plus a structural-induction step per loader."),
+    note=("Trusted: z3, the interpreter (validated against CPython on the suite's brine input and boundary values every run), the stub contracts "
+          "listed in the evidence (struct, utf-8, str(int), BytesIO), the induction principle for O5. Bounds: nesting<=1/arity<=2 quick, "
+          "<=2/<=2 thorough; decode inputs <=3 (quick)/4 (thorough) bytes; element loops unwound 64 (bounded) / 3 (inductive, cut paths counted)."),
+    technique="symbolic execution of the Python AST over rope-modelled byte strings + z3 (LIA, UF, FP); replay on CPython"),
 }
 
 NOT_YET = {}
